@@ -46,6 +46,13 @@ impl<'a> RegExp<'a> {
         // Surrogate pair escapes are not accepted by the regex crate, and a very long
         // candidate can exceed its size limit, so the check below is only possible
         // if the candidate compiles.
+        #[cfg(grex_verif)]
+        if config.is_start_anchor_disabled
+            && config.is_end_anchor_disabled
+            && Self::try_convert_expr_to_regex(&ast, config).is_none()
+        {
+            crate::verif::record("selfcheck_impossible", || "candidate does not compile".to_string());
+        }
         if config.is_start_anchor_disabled
             && config.is_end_anchor_disabled
             && Self::try_convert_expr_to_regex(&ast, config).is_some()
